@@ -10,6 +10,10 @@ VERIF = os.path.dirname(os.path.dirname(os.path.abspath(__file__)))
 KNOWN = os.path.join(VERIF, 'known_findings.json')
 
 
+class JobBudget(Exception):
+    pass
+
+
 class Oblig:
     def __init__(s, name, pre, post_fn, lane=None, rename=None, region_args=None, kind='spec', replay_fn=None):
         s.name = name; s.pre = pre; s.post_fn = post_fn; s.lane = lane; s.rename = rename
@@ -228,6 +232,11 @@ def work_one(job):
                queries=0, by_simplifier=0, by_search=0, dedup=0, solver_s=0.0, enc_s=0.0, steps=0, forks=0,
                samples=[], max_trip=0, intrinsics=[], internal=None)
     t0 = time.time()
+    budget = getattr(P, 'JOB_BUDGET', {}).get(job['tier'])
+    if budget:
+        import signal
+        def _alarm(sig, frm): raise JobBudget()
+        signal.signal(signal.SIGALRM, _alarm); signal.alarm(int(budget))
     try:
         mod = get_mod(job['llpath'])
         opts = P.exec_opts(k) if hasattr(P, 'exec_opts') else {}
@@ -240,12 +249,17 @@ def work_one(job):
         # executor-internal obligations (in-bounds, alignment, unwinding)
         for kind, pc, cond, info in ex.obligs:
             if kind == 'unreachable': continue
-            obs.append(Oblig('%s: %s' % (kind, info), z3.And(*pc) if pc else True, (lambda c: (lambda res: c))(cond), kind=kind))
+            if kind in getattr(P, 'IGNORE_INTERNAL', ()):
+                rec['truncated'] = rec.get('truncated', 0) + 1; continue
+            rf = P.internal_replay(kind, info) if hasattr(P, 'internal_replay') else None
+            obs.append(Oblig('%s: %s' % (kind, info), z3.And(*pc) if pc else True, (lambda c: (lambda res: c))(cond), kind=kind, replay_fn=rf))
         dec = harness.Decider(timeout_s=job['timeout'])
         known = match_known(_W['known'], prop, k)
         reported_known = set()
         goals = [ob.post_fn(run.res) for ob in obs]     # may introduce side facts about fresh symbols (NaN payload bits): build before `base`
         base = list(ex.assume) + list(ex.side)
+        if getattr(P, 'NAME_MEMORY_BYTES', False):
+            goals, obs, base = name_memory_bytes(ex, goals, obs, base)
         for ob, goal in zip(obs, goals):
             rec['obligations'] += 1
             pre = [ob.pre] if not (ob.pre is True) else []
@@ -254,10 +268,16 @@ def work_one(job):
         rec.update(queries=dec.queries, by_simplifier=dec.by_simplifier, by_search=dec.by_search, dedup=dec.dedup,
                    solver_s=dec.solver_s, samples=dec.samples)
         if ex.fmf_seen: rec['fmf'] = list(set(map(str, ex.fmf_seen)))
+    except JobBudget:
+        # wall-clock budget of this kernel body exhausted: whatever was not decided yet is undecided (never a pass)
+        rec['status'] = 'budget'; rec['undecided'].append('kernel budget of %d s exhausted after %d of %d obligations' % (budget, rec['discharged'], rec['obligations']))
     except Unsupported as e:
         rec['status'] = 'unsupported'; rec['internal'] = str(e)
     except Exception as e:
         rec['status'] = 'error'; rec['internal'] = '%s: %s\n%s' % (type(e).__name__, e, traceback.format_exc()[-1500:])
+    if budget:
+        import signal
+        signal.alarm(0)
     rec['wall_s'] = time.time() - t0
     return rec
 
@@ -380,6 +400,43 @@ def decide_one(dec, rec, k, run, ob, base, pre, goal, known, reported_known, job
         extra = extra + [z3.Not(z3.And(*blk))] if blk else extra
 
 
+def name_memory_bytes(ex, goals, obs, base):
+    """every byte read from caller memory, Select(MEM0, addr), is given a name (a fresh 8-bit constant tied to the Select by an equality
+    in the assumptions) and the goals / preconditions are rewritten over the names: the FP / bit-vector reasoning then never meets the
+    array theory.  Equivalent formula (definitional extension); models still assign MEM0, so replays are unaffected."""
+    names = {}; pairs = []; defs = []
+    def collect(e, seen):
+        st = [e]
+        while st:
+            x = st.pop()
+            i = x.get_id()
+            if i in seen: continue
+            seen.add(i)
+            if z3.is_app_of(x, z3.Z3_OP_SELECT) and x.arg(0).eq(ex.ext0):
+                key = z3.simplify(x.arg(1)).sexpr()
+                if key not in names:
+                    names[key] = z3.BitVec('membyte!%d' % len(names), 8)
+                    defs.append(names[key] == x)
+                pairs.append((x, names[key]))
+            else:
+                st.extend(x.children())
+    seen = set()
+    for g in goals:
+        if not isinstance(g, bool): collect(g, seen)
+    for ob in obs:
+        if ob.pre is not True: collect(ob.pre, seen)
+    if not pairs: return goals, obs, base
+    goals = [g if isinstance(g, bool) else z3.substitute(g, *pairs) for g in goals]
+    for ob in obs:
+        if ob.pre is not True: ob.pre = z3.substitute(ob.pre, *pairs)
+    for d in defs: harness.LAZY_IDS.add(d.get_id())
+    _KEEP.extend(defs)      # keep the ASTs alive so that their ids stay unique
+    return goals, obs, base + defs
+
+
+_KEEP = []
+
+
 def _init_worker(props_modnames, known):
     import importlib
     _W['props'] = {p: importlib.import_module(m) for p, m in props_modnames.items()}
@@ -437,6 +494,7 @@ def run_property(prop, P, tier, seed, modname, timeout=None, jobs=None, keep=Fal
     random.seed(seed)
     jobs = jobs or min(16, os.cpu_count() or 4)
     timeout = timeout or getattr(P, 'TIMEOUT', {}).get(tier) or (20 if tier == 'quick' else 300)
+    os.environ['XV_TIER'] = tier       # inherited by the worker processes
     work = tempfile.mkdtemp(prefix='xv_%s_' % prop)
     replay_root = os.path.join(VERIF, 'replays', prop)
     shutil.rmtree(replay_root, ignore_errors=True)
@@ -527,6 +585,7 @@ def finish(prop, P, tier, seed, kernels, dropped, missing, recs, wall, t_lower, 
         tot['solver_s'] += r['solver_s']; tot['enc_s'] += r['enc_s']
         if r['status'] == 'unsupported': unsupported.append((r['kernel'], r['internal']))
         elif r['status'] == 'error': errors.append((r['kernel'], r['internal']))
+        elif r['status'] == 'budget': covered += len(r['members'])
         else: covered += len(r['members'])
         for u in r['undecided']: undec.append('%s: %s' % (r['kernel'], u))
         for u in r['ubnotes']: ub.append('%s: %s %s' % (r['kernel'], u['where'], u['what']))
@@ -577,8 +636,9 @@ def finish(prop, P, tier, seed, kernels, dropped, missing, recs, wall, t_lower, 
         'wall_s': round(wall, 2), 'violations': nviol,
     }
     if hasattr(P, 'evidence_extra'): P.evidence_extra(evidence, recs)
-    os.makedirs(os.path.join(VERIF, 'evidence'), exist_ok=True)
-    json.dump(evidence, open(os.path.join(VERIF, 'evidence', prop + '.json'), 'w'), indent=1, default=str)
+    EVD = os.environ.get('XV_EVIDENCE_DIR') or os.path.join(VERIF, 'evidence')
+    os.makedirs(EVD, exist_ok=True)
+    json.dump(evidence, open(os.path.join(EVD, prop + '.json'), 'w'), indent=1, default=str)
     for l in lines: print(l)
     print('%s %s: wrappers=%d bodies=%d obligations=%d discharged=%d undecided=%d unsupported=%d errors=%d violations=%d solver=%.1fs wall=%.1fs' % (
         prop, tier, len(kernels), len(recs), tot['obligations'], tot['discharged'], len(undec), len(unsupported), len(errors), nviol, tot['solver_s'], wall))
